@@ -73,13 +73,14 @@ PROPS = {
     'C15': {
         'units': [{'template': 'chain.rs', 'rlimit': 30, 'items': [
             r'^crypto::generate_block_signature_payload_v1$', r'^crypto::generate_seal_signature_payload_v0$',
-            r'^crypto::ed25519::PublicKey::verify_signature$',
+            r'^crypto::ed25519::PublicKey::verify_signature$', r'^crypto::p256::PublicKey::verify_signature$', r'^format::block_signature_version$',
             r'^format::SerializedBiscuit::(seal|append|append_serialized|deserialize|to_proto)$']}],
         'proved': 'append / append_serialized / seal keep every existing block (hence its signature = revocation identifier) in place and in '
                   'order; to_proto / deserialize map signatures bytewise; the v1 block payload and the seal payload cover the previous signature; '
-                  'ed25519 verification is the strict (non-malleable) one.',
+                  'ed25519 verification is the strict (non-malleable) one; block_signature_version keeps layout v1 (which covers the previous signature) once any earlier block uses it. '
+                  'secp256r1: the clause `an accepted signature is the canonical one of the pair (r, s) / (r, n - s)` is NOT provable on the current tree - known finding, see known_findings.txt.',
         'not_covered': ['uniqueness across independently minted tokens (probabilistic, fresh OsRng key)',
-                        'malleability of secp256r1 signatures (p256 accepts (r,s) and (r,n-s)): inside the dependency, stated as an assumption'],
+                        'which earlier versions reach block_signature_version (the iterator argument is abstracted, rule A2)'],
         'assumptions': CRYPTO_ASSUMPTIONS,
     },
 }
@@ -336,6 +337,13 @@ PROPS['C06'] = {
 }
 
 # obligation pattern -> concrete witness search on the real crate (replay/src/main.rs)
+# the non-malleability clause of p256 verification belongs to C15 only
+for _p in PROPS:
+    if _p != 'C15':
+        for _u in PROPS[_p]['units']:
+            if _u['template'] == 'chain.rs':
+                _u.setdefault('exclude_obligations', []).append(r'p256::PublicKey::verify_signature::ensures\.canonical')
+
 WITNESS = {
     r'Authorizer::authorize_inner::(loop\d+\.(sound|flag|all_reject|none|done)|ensures\.checks)': 'tools/replay.sh reject_if_alternatives',
     r'token::(unverified::UnverifiedBiscuit|Biscuit)::block::call-pre': 'tools/replay.sh block_index',
@@ -357,6 +365,7 @@ WITNESS = {
     r'biscuit-capi::lib::biscuit_(serialize_sealed|sealed_size)::': 'tools/replay.sh capi_serialize_sealed',
     r'datalog::contains_v3_3_(term|op)::': 'tools/replay.sh schema_version_features',
     r'datalog::SchemaVersion::check_compatibility::': 'tools/replay.sh underdeclared_block_accepted',
+    r'crypto::p256::PublicKey::verify_signature::ensures\.canonical': 'tools/replay.sh p256_signature_twin',
 }
 
 NOT_APPLICABLE = {
